@@ -1280,6 +1280,11 @@ SPECS = [
          params="(is_app : str -> bool * option str) (filename : str)", ret="str * bool", args=["self", "filename"],
          env={"filename": ("filename", "str")},
          calls={"self.__source.is_app_frame": ("is_app", ["str"], "(bool * option str)")}),
+    # ---- which frames of the stack carry variables (C02)
+    dict(group="Select", name="gen_should_collect_vars", path="processor/context/snapshot_action.py", cls="SnapshotActionContext", func="should_collect_vars",
+         params="(config : args) (current_frame_index : Z)", ret="bool", args=["self", "current_frame_index"],
+         constants=["api/tracepoint/constants.py"],
+         env={"self.location_action.config": ("config", "args"), "current_frame_index": ("current_frame_index", "Z")}),
     # ---- truth words (C10 condition gate, C19 boolean settings)
     dict(group="Truth", name="gen_str2bool", path="utils.py", cls=None, func="str2bool",
          params="(string : str)", ret="bool", args=["string"], env={"string": ("string", "str")}),
@@ -1298,6 +1303,7 @@ GROUPS = {           # generated file -> (imports, which properties' theorems ar
     "Collect": ("From Deep Require Import Base PureSupport.", ["C05", "C07"]),
     "Children": ("From Deep Require Import Base PureSupport.", ["C05", "C02"]),
     "Render": ("From Deep Require Import Base PureSupport.", ["C02"]),
+    "Select": ("From Deep Require Import Base TriggerTable PureSupport.", ["C02"]),
     "Truth": ("From Deep Require Import Base Config PureSupport.", ["C10", "C19"]),
     "Gate": ("From Deep Require Import Base Config Limiter Cond PureSupport.\nFrom DeepGen Require Import PTruth.", ["C10"]),
     "Table": ("From Deep Require Import Base Match TriggerTable PureSupport.", ["C11"]),
